@@ -19,7 +19,7 @@ from mc import common
 from mc.oracles import geometry as geo
 
 LEVEL = "exploration"
-CLASSES = ["Cuboid", "Cylinder", "CylinderSegment", "Sphere", "Tetrahedron", "TriangularMesh", "Triangle", "Circle", "Polyline", "Dipole", "DipoleMz", "DipolePz", "DipoleMx", "TriangularMeshMulti",
+CLASSES = ["Cuboid", "Cylinder", "CylinderSegment", "Sphere", "Tetrahedron", "TriangularMesh", "Triangle", "Circle", "Polyline", "Dipole", "DipoleMz", "DipolePz", "DipoleMx", "TriangularMeshMulti", "TriangularMeshUnchecked",
            "Sensor"]
 PATHS = ["static", "transl3", "rot4", "spin4"]
 FRAMES = ["default", 1, 2, [0, 2], [0, 9]]
@@ -35,6 +35,7 @@ PAR = {"Cuboid": {"dimension": (1.0, 1.2, 0.8)}, "Cylinder": {"dimension": (1.0,
 _MV = np.concatenate([np.array(TV) * 0.4 + np.array((1.3 * k - 4.5, 0.2 * (k % 3), 0.1 * k)) for k in range(8)])
 _MF = np.concatenate([np.array(TF) + 4 * k for k in range(8)])
 PAR["TriangularMeshMulti"] = {"vertices": _MV, "faces": _MF}
+PAR["TriangularMeshUnchecked"] = {"vertices": TV, "faces": TF}   # built with every mesh check switched off: its status stays "unchecked"
 UNIT_FACTOR = {"m": 1.0, "mm": 1e3, "km": 1e-3, "cm": 1e2, "dm": 1e1, "µm": 1e6, "um": 1e6, "nm": 1e9, "Mm": 1e-6, "Gm": 1e-9, "Tm": 1e-12, "pm": 1e12}
 
 
@@ -49,6 +50,8 @@ def mk(cls, pathkind, scale=1.0):
         par = {k: float(v) for k, v in par.items()}
     C = {"Cuboid": magpy.magnet.Cuboid, "Cylinder": magpy.magnet.Cylinder, "CylinderSegment": magpy.magnet.CylinderSegment,
          "Sphere": magpy.magnet.Sphere, "Tetrahedron": magpy.magnet.Tetrahedron, "TriangularMesh": magpy.magnet.TriangularMesh,
+         "TriangularMeshUnchecked": lambda **kw: magpy.magnet.TriangularMesh(check_open="skip", check_disconnected="skip", check_selfintersecting="skip",
+                                                                             reorient_faces="skip", **kw),
          "TriangularMeshMulti": lambda **kw: magpy.magnet.TriangularMesh(check_disconnected="ignore", style_mesh_disconnected_show=True, **kw),
          "Triangle": magpy.misc.Triangle, "Circle": magpy.current.Circle, "Polyline": magpy.current.Polyline}
     if cls in ("Circle", "Polyline"):
@@ -125,7 +128,7 @@ def check_object(cls, obj, traces, factor, frames, scale, displayed=None):
     """returns list of problems for one object in one set of traces"""
     from scipy.spatial.transform import Rotation as R
 
-    if cls == "TriangularMeshMulti":
+    if cls in ("TriangularMeshMulti", "TriangularMeshUnchecked"):
         PAR_cls, cls = PAR[cls], "TriangularMesh"
         return _check_object(cls, obj, traces, factor, frames, scale, displayed, PAR_cls)
     return _check_object(cls, obj, traces, factor, frames, scale, displayed, PAR.get(cls, {}))
@@ -333,11 +336,11 @@ def run_case(c):
     for flag in ("style_magnetization_show", "style_arrow_show", "style_orientation_show"):
         pass
     skw = {}
-    if cls in ("Cuboid", "Cylinder", "CylinderSegment", "Sphere", "Tetrahedron", "TriangularMesh", "Triangle", "TriangularMeshMulti"):
+    if cls in ("Cuboid", "Cylinder", "CylinderSegment", "Sphere", "Tetrahedron", "TriangularMesh", "Triangle", "TriangularMeshMulti", "TriangularMeshUnchecked"):
         obj.style.magnetization.show = False
     if cls == "Triangle":
         obj.style.orientation.show = False
-    if cls in ("TriangularMesh", "TriangularMeshMulti"):
+    if cls in ("TriangularMesh", "TriangularMeshMulti", "TriangularMeshUnchecked"):
         obj.style.orientation.show = False
     if cls in ("Circle", "Polyline"):
         obj.style.arrow.show = False
@@ -504,7 +507,7 @@ def run_mpl(c):
     cls, pk, frames, unit = c["cls"], c["path"], c["frames"], c["unit"]
     scale = {"m": 1.0, "mm": 1e-3, "km": 1e3}[unit] if c.get("scaled") else 1.0
     obj = mk(cls, pk, scale)
-    if cls in ("Cuboid", "Cylinder", "CylinderSegment", "Sphere", "Tetrahedron", "TriangularMesh", "Triangle", "TriangularMeshMulti"):
+    if cls in ("Cuboid", "Cylinder", "CylinderSegment", "Sphere", "Tetrahedron", "TriangularMesh", "Triangle", "TriangularMeshMulti", "TriangularMeshUnchecked"):
         obj.style.magnetization.show = False
     if cls in ("Triangle", "TriangularMesh"):
         obj.style.orientation.show = False
